@@ -161,7 +161,9 @@ def run(report, findings):
     from ..contracts import parser_c, scanner_c
     tier = report.tier
     # ---- proof tier: every scanner and parser function against the grammar contract
-    checklib.run_proofs(report, "C01", [("vf.contracts.scanner_c", scanner_c.FUNCTIONS), ("vf.contracts.parser_c", parser_c.FUNCTIONS)])
+    checklib.run_proofs(report, "C01", [("vf.contracts.scanner_c", scanner_c.FUNCTIONS), ("vf.contracts.parser_c", parser_c.FUNCTIONS),
+                                        # property lemma: the scanner's guarantee is the parser's precondition (the two contracts compose)
+                                        ("vf.contracts.lemmas_c", ["vf.proplemmas.c01.scan_then_parse"])])
     # ---- bounded tier: exhaustive strings over the token alphabet
     n_max = 4 if tier == "quick" else 5
     tasks = []
